@@ -74,10 +74,15 @@ func (wf *WALFileType) Replay(dryRun bool) error {
 				return fmt.Errorf("seek error: %w", err)
 			}
 			tgID, tgSerialized, err := wf.readTGData()
-			tgData[tgID] = tgSerialized
 			if continueRead = fullRead(err); !continueRead {
 				break // Break out of switch
 			}
+			if err != nil {
+				// a damaged record (garbage length or bad checksum) has no TG ID and no data:
+				// skip it instead of recording it under ID 0
+				break // Break out of switch
+			}
+			tgData[tgID] = tgSerialized
 			// give up Replay if there is already a TG data location in this WAL
 			if _, ok := offsetTGDataInWAL[tgID]; ok {
 				log.Error(io.GetCallerFileContext(0) + ": Duplicate TG Data in WAL")
